@@ -142,9 +142,11 @@ theorem lbPow_correct (a b : LB) (ha : a.wf) (hb : b.wf) (hneg : 0 ≤ b.den) :
     Correct (LB.pow a b) (a.den ^ b.den.toNat) :=
   Ops.lbPow_correct a b ha hb hneg
 
-/-- `a ** b` of the language: a value `a^b`, canonical, whenever the two documented guards do not apply -/
+/-- `a ** b` of the language: a value `a^b`, canonical, whenever the documented guards do not apply
+(negative exponent, `0 ** 0`, and an exponent beyond the machine word with a base other than 0, 1, -1) -/
 theorem pow_correct (a b : LB) (ha : a.wf) (hb : b.wf) (hneg : 0 ≤ b.den)
-    (h00 : ¬ (a.den = 0 ∧ b.den = 0)) :
+    (h00 : ¬ (a.den = 0 ∧ b.den = 0))
+    (hword : b.den < 18446744073709551616 ∨ (-1 ≤ a.den ∧ a.den ≤ 1)) :
     ∃ r, IntB.pow a b = .int r ∧ r.wf ∧ r.den = a.den ^ b.den.toNat := by
   obtain ⟨r, hr, hw, hd⟩ := lbPow_correct a b ha hb hneg
   refine ⟨r, ?_, hw, hd⟩
@@ -153,7 +155,33 @@ theorem pow_correct (a b : LB) (ha : a.wf) (hb : b.wf) (hneg : 0 ≤ b.den)
     rw [← Bool.not_eq_true, isNegative_iff]; omega
   have h2 : (LB.isZero b && LB.isZero a) = false := by
     rw [← Bool.not_eq_true, Bool.and_eq_true, isZero_iff b hb, isZero_iff a ha]; omega
-  rw [h1, h2, hr]; rfl
+  rw [h1, h2, Ops.toU64_spec b hb]
+  simp only [Bool.false_eq_true, if_false]
+  by_cases hw64 : 0 ≤ b.den ∧ b.den < 18446744073709551616
+  · rw [if_pos hw64]; simp only [Option.isNone_some, Bool.false_eq_true, if_false]; rw [hr]; rfl
+  · rw [if_neg hw64]; simp only [Option.isNone_none, if_true]
+    obtain ⟨aa, haa, haw, had⟩ := abs_correct a ha
+    rw [haa]; simp only []
+    have hc : (!(LB.isZero a || LB.isOne aa)) = false := by
+      rw [Bool.not_eq_false', Bool.or_eq_true, isZero_iff a ha, isOne_iff aa haw, had]; omega
+    rw [hc]; simp only [Bool.false_eq_true, if_false]; rw [hr]; rfl
+
+/-- an exponent of 2^64 or more with a base other than 0, 1, -1 is the error value "exponent too large" (never a panic) -/
+theorem pow_exponent_too_large (a b : LB) (ha : a.wf) (hb : b.wf) (hbig : 18446744073709551616 ≤ b.den)
+    (hbase : a.den < -1 ∨ 1 < a.den) : IntB.pow a b = .err "exponent too large" := by
+  unfold IntB.pow
+  have h1 : LB.isNegative b = false := by
+    rw [← Bool.not_eq_true, isNegative_iff]; omega
+  have h2 : (LB.isZero b && LB.isZero a) = false := by
+    rw [← Bool.not_eq_true, Bool.and_eq_true, isZero_iff b hb, isZero_iff a ha]; omega
+  rw [h1, h2, Ops.toU64_spec b hb]
+  simp only [Bool.false_eq_true, if_false]
+  rw [if_neg (show ¬ (0 ≤ b.den ∧ b.den < 18446744073709551616) by omega)]; simp only [Option.isNone_none, if_true]
+  obtain ⟨aa, haa, haw, had⟩ := abs_correct a ha
+  rw [haa]; simp only []
+  have hc : (!(LB.isZero a || LB.isOne aa)) = true := by
+    rw [Bool.not_eq_true', ← Bool.not_eq_true, Bool.or_eq_true, isZero_iff a ha, isOne_iff aa haw, had]; omega
+  rw [hc]; rfl
 
 theorem pow_negative_exponent (a b : LB) (hneg : b.den < 0) :
     IntB.pow a b = .err "cannot raise integer to a negative power" := by
